@@ -73,7 +73,7 @@ impl Gauss {
                         log::debug!("Finding solution to linear system failed: left side of matrix [{},{}] = {}", i, j, x);
                         return false;
                     }
-                } else if x > 1E-8 {
+                } else if x.abs() > 1E-8 {
                     log::debug!("Finding solution to linear system failed: left side of matrix [{},{}] = {}", i, j, x);
                     return false;
                 }
